@@ -16,6 +16,7 @@ pub struct Case {
     pub strict: bool,
     pub populate: bool,
     pub handle_cache: bool,
+    pub via_iter: bool,
     pub sweep: bool,
     pub probe: bool,
     /// None: generate from `seed`
@@ -36,6 +37,7 @@ impl Case {
             strict: false,
             populate: false,
             handle_cache: false,
+            via_iter: false,
             sweep: false,
             probe: false,
             steps: None,
@@ -51,6 +53,7 @@ impl Case {
         e.strict = self.strict;
         e.populate = self.populate;
         e.handle_cache = self.handle_cache;
+        e.via_iter = self.via_iter;
         e.sweep = self.sweep;
         e.probe = self.probe;
     }
@@ -62,7 +65,7 @@ impl Case {
             "seed": self.seed.to_string(),
             "config": {
                 "pagesize": self.pagesize, "num_pages": self.num_pages, "strict": self.strict,
-                "populate": self.populate, "handle_cache": self.handle_cache, "sweep": self.sweep, "probe": self.probe,
+                "populate": self.populate, "handle_cache": self.handle_cache, "via_iter": self.via_iter, "sweep": self.sweep, "probe": self.probe,
             },
             "steps": self.steps.as_ref().map(|s| Value::Array(s.iter().map(|x| x.to_json()).collect())).unwrap_or(Value::Null),
             "extra": self.extra,
@@ -86,6 +89,7 @@ impl Case {
             strict: c.get("strict")?.as_bool()?,
             populate: c.get("populate")?.as_bool()?,
             handle_cache: c.get("handle_cache")?.as_bool()?,
+            via_iter: c.get("via_iter").and_then(|x| x.as_bool()).unwrap_or(false),
             sweep: c.get("sweep").and_then(|x| x.as_bool()).unwrap_or(false),
             probe: c.get("probe").and_then(|x| x.as_bool()).unwrap_or(false),
             steps,
